@@ -159,3 +159,57 @@ func String(r Reply) string {
 	}
 	return "?"
 }
+
+// ReadReply reads one RESP2 reply and returns it in the notation of String (errors start with '-').
+func ReadReply(r *bufio.Reader) (string, error) {
+	line, err := r.ReadString('\n')
+	if err != nil {
+		return "", err
+	}
+	if len(line) < 3 {
+		return "", fmt.Errorf("short reply line %q", line)
+	}
+	body := line[1 : len(line)-2]
+	switch line[0] {
+	case '+':
+		return "+" + body, nil
+	case '-':
+		return "-" + body, nil
+	case ':':
+		return ":" + body, nil
+	case '$':
+		n, err := strconv.Atoi(body)
+		if err != nil {
+			return "", err
+		}
+		if n < 0 {
+			return "$nil", nil
+		}
+		buf := make([]byte, n+2)
+		if _, err := io.ReadFull(r, buf); err != nil {
+			return "", err
+		}
+		return fmt.Sprintf("$%q", buf[:n]), nil
+	case '*':
+		n, err := strconv.Atoi(body)
+		if err != nil {
+			return "", err
+		}
+		if n < 0 {
+			return "*nil", nil
+		}
+		s := "["
+		for i := 0; i < n; i++ {
+			e, err := ReadReply(r)
+			if err != nil {
+				return "", err
+			}
+			if i > 0 {
+				s += " "
+			}
+			s += e
+		}
+		return s + "]", nil
+	}
+	return "", fmt.Errorf("unknown reply type %q", line)
+}
